@@ -74,6 +74,12 @@ broadcast use {trusted::axiom_fx_builds_valid_hashers, trusted::axiom_hashset_de
 pub assume_specification<T: Eq + Hash, S: std::hash::BuildHasher, A: std::alloc::Allocator, I: IntoIterator<Item = T>> [<HashSet<T, S, A> as Extend<T>>::extend::<I>] (s: &mut HashSet<T, S, A>, iter: I)
     ensures final(s)@ == old(s)@.union(spec_items::<I>(iter)),
 ;
+// ASSUMED contract of Entry::or_default (mirrors vstd's Entry::or_insert with the default value; used by the TrRelUnionFind unit)
+pub assume_specification<'a, K, V: Default> [std::collections::hash_map::Entry::<'a, K, V>::or_default] (e: std::collections::hash_map::Entry<'a, K, V>) -> (r: &'a mut V)
+    ensures
+        *r == (match e.value() { Some(v) => v, None => default_value::<V>() }),
+        e.final_value() == Some(*final(r)),
+;
 // ASSUMED contract of core::mem::take
 pub assume_specification<T: Default> [core::mem::take::<T>] (dest: &mut T) -> (r: T)
     ensures r == *old(dest), *final(dest) == default_value::<T>(),
